@@ -991,6 +991,62 @@ func fixedScenarios() []Scenario {
 	}
 }
 
+// appScenarios: real applications with 2–4 adapters, requests in flight on every adapter when the
+// process gets SIGTERM.
+func appScenarios(rng *rand.Rand, thorough bool) []Scenario {
+	r := func(d ...int) []ReqPlan {
+		var out []ReqPlan
+		for _, x := range d {
+			out = append(out, ReqPlan{Dur: x})
+		}
+		return out
+	}
+	scs := []Scenario{
+		{Kind: "app", CtxMs: 12000, Model: true, Adapters: []AdapterPlan{
+			{Conns: []ConnPlan{{r(700)}}, Trigger: "started"},
+			{Conns: []ConnPlan{{r(900, 100)}}, Trigger: "started"}}},
+		{Kind: "app", Pool: 2, QCap: 8, CtxMs: 12000, Model: true, Adapters: []AdapterPlan{
+			{Conns: []ConnPlan{{r(600, 600, 600)}}, Trigger: "started"},
+			{Conns: []ConnPlan{{r(300)}, {r(50)}}, Trigger: "started"},
+			{Conns: []ConnPlan{{[]ReqPlan{{Dur: 400}, {Dur: 20, Kind: "oneway"}}}}, Trigger: "started"}}},
+		{Kind: "app", CtxMs: 12000, Model: true, Adapters: []AdapterPlan{
+			{Conns: []ConnPlan{{}}, Trigger: "idle"},
+			{Conns: []ConnPlan{{r(1200)}}, Trigger: "started"},
+			{Conns: []ConnPlan{{r(40)}}, Trigger: "done"},
+			{Conns: []ConnPlan{{[]ReqPlan{{Dur: 500}, {Dur: 50, LateMs: 150}}}}, Trigger: "started"}}},
+	}
+	n := 0
+	if thorough {
+		n = 12
+	}
+	for i := 0; i < n; i++ {
+		sc := Scenario{Kind: "app", CtxMs: 12000, Model: true}
+		if rng.Intn(2) == 0 {
+			sc.Pool = 1 + rng.Intn(3)
+			sc.QCap = []int{1, 2, 8, 64}[rng.Intn(4)]
+		}
+		for a := 0; a < 2+rng.Intn(3); a++ {
+			var ap AdapterPlan
+			total := 0
+			for c := 0; c < 1+rng.Intn(2); c++ {
+				var cp ConnPlan
+				for q := 0; q < rng.Intn(3); q++ {
+					cp.Reqs = append(cp.Reqs, ReqPlan{Dur: 100 + 200*rng.Intn(6), Kind: reqKind(rng)})
+				}
+				total += len(cp.Reqs)
+				ap.Conns = append(ap.Conns, cp)
+			}
+			ap.Trigger = []string{"parsed", "started", "done"}[rng.Intn(3)]
+			if total == 0 {
+				ap.Trigger = "idle"
+			}
+			sc.Adapters = append(sc.Adapters, ap)
+		}
+		scs = append(scs, sc)
+	}
+	return scs
+}
+
 func randomScenario(rng *rand.Rand, thorough bool) Scenario {
 	sc := Scenario{Kind: "plan"}
 	switch rng.Intn(5) {
@@ -1083,9 +1139,13 @@ func parseConsts(s string) (consts, bool) {
 
 func main() {
 	o := common.ParseOpts()
+	if o.Extra == "app-child" {
+		rogger.SetLevel(rogger.OFF)
+		appChildMain()
+	}
 	res := common.NewResult("C12", o)
 	res.Rule = "every scenario: real transport.TarsServer over loopback, history judged by the property oracle and replayed through the Lean LTS (admits, tree variant)"
-	res.Streams = []string{"serverconn"}
+	res.Streams = []string{"serverconn", "serverconn-app"}
 	rogger.SetLevel(rogger.OFF)
 
 	m, err := common.StartModel(o.Model, "serverconn")
@@ -1135,14 +1195,18 @@ func main() {
 		for i := 0; i < n; i++ {
 			scs = append(scs, randomScenario(rng, o.Thorough()))
 		}
+		scs = append(scs, appScenarios(rng, o.Thorough())...)
 	}
 
-	// the 500 ms pollers dominate: run the scenarios concurrently (each has its own server and port)
+	// the 500 ms pollers dominate: run the scenarios concurrently (each has its own server and port;
+	// an app scenario has its own child process)
 	type done struct {
-		sc  Scenario
-		out outcome
+		top   Scenario // what a replay executes
+		sc    Scenario // what is judged: the scenario itself, or one adapter of an app scenario
+		out   outcome
+		label string
 	}
-	results := make([]done, len(scs))
+	perScenario := make([][]done, len(scs))
 	par := 24
 	if o.Replay != "" {
 		par = 4
@@ -1155,10 +1219,25 @@ func main() {
 		go func(i int, sc Scenario) {
 			defer wg.Done()
 			defer func() { <-sem }()
-			results[i] = done{sc, runScenario(sc)}
+			if sc.Kind != "app" {
+				perScenario[i] = []done{{sc, sc, runScenario(sc), ""}}
+				return
+			}
+			outs, errs := runAppScenario(sc)
+			if errs != "" {
+				perScenario[i] = []done{{sc, sc, outcome{err: errs}, "app"}}
+				return
+			}
+			for j, out := range outs {
+				perScenario[i] = append(perScenario[i], done{sc, sc.adapterScenario(j), out, fmt.Sprintf("adapter %d of %d: ", j, len(outs))})
+			}
 		}(i, sc)
 	}
 	wg.Wait()
+	var results []done
+	for _, ds := range perScenario {
+		results = append(results, ds...)
+	}
 
 	// model replay (batched)
 	var lines []string
@@ -1182,22 +1261,26 @@ func main() {
 	hookSeen, toctouRan := false, false
 	for i, d := range results {
 		sc, out := d.sc, d.out
-		class := fmt.Sprintf("%s pool=%s trigger=%s", sc.Kind, poolClass(sc.Pool), sc.Trigger)
+		class := fmt.Sprintf("%s pool=%s trigger=%s", d.top.Kind, poolClass(sc.Pool), sc.Trigger)
+		stream := "serverconn"
+		if d.top.Kind == "app" {
+			stream = "serverconn-app"
+		}
 		if out.err != "" {
 			res.Histogram["harness-trouble: "+out.err]++
-			res.Diverge(common.Case{Stream: "serverconn", Op: sc, Model: "-", Impl: "scenario could not be executed: " + out.err, Note: timeline(out.evs)})
+			res.Diverge(common.Case{Stream: stream, Op: d.top, Model: "-", Impl: "scenario could not be executed: " + d.label + out.err, Note: timeline(out.evs)})
 			continue
 		}
 		hookSeen = hookSeen || out.hookSeen
 		toctouRan = toctouRan || sc.Kind == "toctou"
-		res.Count(sc.key(), class, len(out.evs) > 8)
+		res.Count(d.top.key()+d.label, class, len(out.evs) > 8)
 		fs := judge(sc, out, k)
-		rep := report{Scenario: sc, History: history(out.evs), Timeline: timeline(out.evs), Model: modelAns[i],
+		rep := report{Scenario: d.top, History: history(out.evs), Timeline: timeline(out.evs), Model: modelAns[i],
 			Shutdown: fmt.Sprintf("called@%dms returned@%dms ctx=%v", out.shutCalled.Milliseconds(), out.shutRet.Milliseconds(), out.ctx)}
 		for _, f := range fs {
 			rep.Findings = append(rep.Findings, f.class+":"+f.locus+": "+f.what)
-			res.Violate(common.Violation{Signature: "C12:" + f.class + ":" + f.locus, What: f.what,
-				Case: common.Case{Stream: "serverconn", Op: sc, Model: modelAns[i], Impl: timeline(out.evs), Note: rep.Shutdown}})
+			res.Violate(common.Violation{Signature: "C12:" + f.class + ":" + f.locus, What: d.label + f.what,
+				Case: common.Case{Stream: stream, Op: d.top, Model: modelAns[i], Impl: timeline(out.evs), Note: d.label + rep.Shutdown}})
 		}
 		if len(fs) == 0 {
 			res.Histogram["oracle: held"]++
@@ -1213,7 +1296,7 @@ func main() {
 					fmt.Fprintln(os.Stderr, "BUDGET", a, sc.Pool, sc.QCap, history(out.evs))
 				}
 			default:
-				res.Diverge(common.Case{Stream: "serverconn", Op: sc, Model: a, Impl: history(out.evs), Note: "the LTS (variant of the tree) has no run with this observed history; " + timeline(out.evs)})
+				res.Diverge(common.Case{Stream: stream, Op: d.top, Model: a, Impl: history(out.evs), Note: d.label + "the LTS (variant of the tree) has no run with this observed history; " + timeline(out.evs)})
 			}
 		}
 		if i < 3 || len(fs) > 0 {
